@@ -1,6 +1,10 @@
 package main
 
-import "sort"
+import (
+	"sort"
+
+	"verif/simrt"
+)
 
 type runStats struct {
 	Evaluations  int
@@ -40,13 +44,14 @@ type workerOut struct {
 	Failures     []*Scenario
 	SchedDigests []uint64
 	Triples      [][3]uint32
-	LogDigest    uint64 // digest of the per-run event log (determinism self-test)
+	SitesHit     []uint32 // instrumented yield sites this worker executed (reach measure)
+	LogDigest    uint64   // digest of the per-run event log (determinism self-test)
 }
 
 func (st *runStats) export(phase string, worker, runs int, logDigest uint64) *workerOut {
 	o := &workerOut{Phase: phase, Worker: worker, Runs: runs, Evaluations: st.Evaluations, Skipped: st.Skipped,
 		Faults: st.Faults, Probes: st.Probes, Logical: st.Logical, MaxStepRatio: st.MaxStepRatio,
-		Samples: st.Samples, Failures: st.Failures, LogDigest: logDigest}
+		Samples: st.Samples, Failures: st.Failures, LogDigest: logDigest, SitesHit: simrt.Covered()}
 	for d := range st.Digests {
 		o.Digests = append(o.Digests, d)
 	}
